@@ -21,10 +21,11 @@ CONSTANTS
   Thresholds <- MCVacuous
   MaxOps = 5
 CHECK_DEADLOCK FALSE
-VIEW view
+VIEW viewG
 INVARIANT TypeOK
 INVARIANT LiqSum
 INVARIANT TickSums
 INVARIANT Solvent
+INVARIANT NoFreeLunch
 PROPERTY RerangeKeepsOwedProp
 PROPERTY OwnerSignedProp
